@@ -17,7 +17,7 @@ pub fn calc_chunk_size(
         ChunkSize::Min(x) => {
             ResolvedChunkSize::Min(min_chunk_size(input_len, max_num_threads, x.into()))
         }
-        ChunkSize::Exact(x) => ResolvedChunkSize::Exact(x.into()),
+        ChunkSize::Exact(x) => ResolvedChunkSize::Exact(exact_chunk_size(input_len, x.into())),
     }
     .validate()
 }
@@ -66,6 +66,15 @@ fn auto_chunk_size(task: ParTask, input_len: Option<usize>, max_num_threads: usi
         None => 1,
         Some(0) => 1,
         Some(len) => find_chunk_size(task, len, max_num_threads),
+    }
+}
+
+fn exact_chunk_size(input_len: Option<usize>, chunk_size: usize) -> usize {
+    match input_len {
+        // a pull cannot take more than the entire input: pulling `min(chunk_size, len)` elements at once is equivalent,
+        // and keeps the positions handed out by the concurrent iterator far from overflowing
+        Some(len) => chunk_size.min(len.max(1)),
+        None => chunk_size,
     }
 }
 
